@@ -1,5 +1,6 @@
 # C14 - casting changes only leaf types, predictably, and never yields NaN or Inf
 PROP = {
+    "gen": ["setters", "pure"],
     "title": "Casting changes only leaf types, predictably, and never yields NaN or Inf",
     "run_modules": ["RunCast"],
     "n": {"quick": 2400, "thorough": 30000},
